@@ -71,13 +71,13 @@ pub fn sanitize(n: &str) -> String {
 
 /// does the effective access of `id` (a batch) depend on thread-local systems
 /// registered inside it (at any depth)?  returns masks without them.
-fn eff_without_tl(info: &PlanInfo, id: usize) -> (u8, u8) {
+fn eff_without_tl(info: &PlanInfo, id: usize) -> (u64, u64) {
     let n = &info.nodes[id];
     match n.kind {
         Kind::Tl if n.parent.is_some() => (0, 0),
         Kind::Batch => {
-            let mut r = n.reads.iter().fold(0u8, |m, x| m | (1 << x));
-            let mut w = n.writes.iter().fold(0u8, |m, x| m | (1 << x));
+            let mut r = n.reads.iter().fold(0u64, |m, x| m | (1u64 << x));
+            let mut w = n.writes.iter().fold(0u64, |m, x| m | (1u64 << x));
             for c in &n.children {
                 let (cr, cw) = eff_without_tl(info, *c);
                 r |= cr;
@@ -89,7 +89,7 @@ fn eff_without_tl(info: &PlanInfo, id: usize) -> (u8, u8) {
     }
 }
 
-fn conflict_masks(a: (u8, u8), b: (u8, u8)) -> bool {
+fn conflict_masks(a: (u64, u64), b: (u64, u64)) -> bool {
     (a.1 & (b.0 | b.1)) != 0 || (a.0 & b.1) != 0
 }
 
